@@ -686,7 +686,9 @@ func (s *scanningState) scan(line []byte) (bool, error) {
 		// output of raceHeaderFooter.
 		s.state = looking
 		s.prefix = nil
-		return false, nil
+		// The separator was a false positive but this line may still start a
+		// trace.
+		return s.scan(line)
 
 	case gotRaceHeader2:
 		if match := reRaceOperationHeader.FindSubmatch(trimmed); match != nil {
